@@ -743,6 +743,36 @@ def r9_no_default_repr_in_text(ctx, res):
         raise AnalysisError(f'only {n} annotated operands of string formatting found')
 
 
+def r10_no_state_in_default_arguments(ctx, res):
+    """a default argument value is evaluated once, at import: an iterator, counter, list, dict or set there is process-wide state
+    (`numbering=itertools.count(1)` makes the second export of a process number its frames from where the first stopped).
+    Default values are constants, names, tuples / frozensets of them, or None."""
+    n = 0
+
+    def constant_like(v):
+        if isinstance(v, (ast.Constant, ast.Name, ast.Attribute)):
+            return True
+        if isinstance(v, ast.Tuple):
+            return all(constant_like(x) for x in v.elts)
+        if isinstance(v, ast.UnaryOp):
+            return constant_like(v.operand)
+        if isinstance(v, ast.Call) and isinstance(v.func, ast.Name) and v.func.id in ('frozenset', 'tuple') \
+                and all(constant_like(a) or isinstance(a, (ast.List, ast.Set, ast.Tuple)) for a in v.args):
+            return True
+        return False
+    for f in ctx.repo.all_funcs():
+        a = f.node.args
+        for d in list(a.defaults) + [x for x in a.kw_defaults if x is not None]:
+            n += 1
+            if not constant_like(d):
+                key = f'default-argument-state:{f.key}:{norm(d)[:40]}'
+                res.inst(key, f.module.loc(d), 'default value built by a call / display')
+                res.find(key, f.module.loc(d), f'{f.qualname} has the default argument `{norm(d)[:60]}`: it is evaluated once and shared by every '
+                                               f'call of the process - a result that depends on it differs between the first and the second call')
+    res.inst('default-argument-state:examined', 'wn/', f'{n} default values')
+    if n < 100:
+        raise AnalysisError(f'only {n} default argument values found')
+
 RULES = [
     ('C16-R1', r1_ont, 300),
     ('C16-R2', r2_no_hidden_state, 300),
@@ -753,4 +783,5 @@ RULES = [
     ('C16-R7', r7_keyless_ordering_is_total, 5),
     ('C16-R8', r8_no_clock_or_process_dependence, 1),
     ('C16-R9', r9_no_default_repr_in_text, 1),
+    ('C16-R10', r10_no_state_in_default_arguments, 1),
 ]
